@@ -198,7 +198,7 @@ the `Print Assumptions` summary.
 | C12 | `C12_diagonal_form_spectrum` (every diagonal form: eigenvalues are the subset sums); product / adjoint theorems used | - | Bogoliubov constraints + diagonal form, majorana_form, canonical form, eigenvector residuals | subset-sum spectrum, Slater minors |
 | C13 | `C13_bonds_are_lattice_edges`, `C13_each_bond_once` (every lattice size, both boundary conditions); `C13_gen_right/bottom_neighbor_is_model` (source functions, translated on every run, equal the model for all arguments) | same, re-checked for x,y <= 12 | all Hubbard-type generators vs edge-list specification, Hermiticity, conservation, general model, jellium consistency | jellium transcendental sums (consistency only) |
 | C14 | `C14_swap_network_correct` (every n, both offsets: pairs once, adjacent, reversal) | same, n <= 40 by evaluation | swap network events; oracle tie | all circuit / gate unitaries |
-| C15 | Suzuki leaf times sum, leaf count | - | oracle tie | convergence order, exactness, final assignment, controlled variants |
+| C15 | Suzuki leaf times sum, leaf count; over R: the split factor 1/(4 - 4^(1/(2k-1))) cancels the order-(2k-1) term | - | oracle tie | convergence order, exactness, final assignment, controlled variants |
 | C16 | checker soundness | - | reduce agrees on sector, tapering step, projection / freezing matrix elements, Pauli rotation | sector spectra, SCBK |
 | C17 | product homomorphism, checker soundness | RDM mapping identities (two-hole, particle-hole, one-hole, contractions) for all index tuples over 4 modes | low-rank reconstruction, one-body-squared identity, spin-orbital expansion, every active-space partition; RDM mapping functions = the proved right-hand sides on arbitrary integer tensors | truncation values, RDMs of random states |
 | C18 | `C18_grouping_is_partition` (every seed / shuffle family, every operator); `C18_pair_between_each_pair_once`, `C18_pair_between_pairing_disjoint` (every pair of lengths); checker soundness (by unfolding) | - | grouping model replayed with the recorded shuffles; complete outputs of all generators on complete length ranges | - |
@@ -255,7 +255,10 @@ LIMITS = r'''
 * Coq 8.16.1 kernel including the `vm_compute` virtual machine (no `native_compute`); `coqchk` is run
   over all `Props/*.vo` in `setup.sh` (its log is `build/coqchk.log`).
 * Axioms: **none declared**.  `Print Assumptions` reports "Closed under the global context" for every
-  property theorem (recorded in each evidence file).  No `Admitted` / `admit`; no guard, positivity or
+  property theorem (recorded in each evidence file) except one: `C15_suzuki_split_cancels` is stated over
+  the standard library's real numbers (`Coq.Reals`) and therefore depends on the library's own axioms
+  `ClassicalDedekindReals.sig_forall_dec` and `FunctionalExtensionality.functional_extensionality_dep`
+  (as printed; `Thm/C15/SuzukiR.v` is the only file importing `Reals`).  No `Admitted` / `admit`; no guard, positivity or
   universe switches.  Libraries used: Coq standard library only (`QArith`, `Qcanon`, `ZArith`, `NArith`,
   `List`, `Bool`, `Lia`, `Ring`, `String`, `Sorted`, `Permutation`, `ZifyBool`/`ZifyNat`).
 * `harness/vf/gen.py`: the `ast` translator for literal tables and for pure integer functions (it
